@@ -181,7 +181,7 @@ def plan(tier, seed, wave):
             return []
         nm, nf = 96, 32
     else:
-        nm, nf = 384, 128
+        nm, nf = 64, 48   # per wave; waves repeat until VERIF_BUDGET_S is used
     tasks = []
     for j in range(nm):
         tasks.append({"fam": "msg", "seed": seed, "start": wave * nm + j, "n": 1, "tier": tier})
